@@ -793,13 +793,16 @@ func (s *session) closeLocked() error {
 }
 
 func (s *session) readDisconnected(oldConn net.Conn, err error) {
-	status := s.getStatus()
-	switch status {
-	case statusPassiveClosed, statusActiveClosed, statusPassiveClosing:
-		return
-	case statusActiveClosing:
-	default:
-		s.changeStatus(statusPassiveClosing)
+	var status int32
+	for {
+		status = s.getStatus()
+		if status == statusPassiveClosed || status == statusActiveClosed || status == statusPassiveClosing {
+			return
+		}
+		// a concurrent Close may win between the load and the change: never overwrite its status
+		if status == statusActiveClosing || s.tryChangeStatus(statusPassiveClosing, status) {
+			break
+		}
 	}
 
 	s.peer.sessHub.deleteSession(s)
